@@ -221,9 +221,11 @@ class Exec:
     def deref(self, v, g, what="*"):
         if isinstance(v, ObjV):
             if v.p < 1:
+                if v.sd < self.dm.smart_depth(v.cls):
+                    return ObjV(v.cls, 0, v.oid, FALSE, False, v.sd + 1)
                 raise IllTyped(f"dereference of non-pointer value of type {v.cls}")
             self.fault(And(g, v.null), "nullderef", f"{what} on null {v.cls}*")
-            return ObjV(v.cls, v.p - 1, v.oid, FALSE if v.p == 1 else v.null, False)
+            return ObjV(v.cls, v.p - 1, v.oid, FALSE if v.p == 1 else v.null, False, v.sd)
         if isinstance(v, CollV):
             if v.handle:
                 self.fault(And(g, Not(v.valid)), "throw", "dereference of invalid edm::Handle")
@@ -251,6 +253,8 @@ class Exec:
                     return self.deref(obj, g, "->")
                 return obj
             p = obj.p
+            if op == "->" and p == 0 and isinstance(obj, ObjV) and obj.sd < self.dm.smart_depth(obj.cls):
+                return self.deref(obj, g, "->")
             if op == "->":
                 if p != 1:
                     raise IllTyped(f"'->{name}' applied to {'value' if p == 0 else 'pointer-to-pointer'} of type {obj.cls if isinstance(obj, ObjV) else obj.tname}{'*' * p}")
@@ -543,6 +547,9 @@ class Exec:
                 r = Not(recv.null) if name != "isNull" else recv.null
                 return Num("bool", r)
             a = self.ev_args(args, g)
+            need_sd = self.dm.method(recv.cls, name, len(a)).deref_count
+            if recv.sd != need_sd:
+                raise IllTyped(f"method {recv.cls}::{name} is declared with deref_count {need_sd} but is reached after {recv.sd} dereference(s) of the object")
             mname = name if targs is None else f"{name}<{re.sub(r'\\s+', '', targs)}>"
             ms = self.dm.method(recv.cls, mname, len(a))
             if targs is not None and not ms.declared:
